@@ -372,6 +372,33 @@ theorem nth_value_invalid (cells : Nat → Val) (ign : Bool) (n : Int) (hn : n <
     nthValue cells ign n w p = none := by
   simp [nthValue, hn]
 
+/-! the repaired variants (Model: `lastValueFixed`, `nthValueFixed`) meet the full statements -/
+
+theorem last_value_fixed_spec (cells : Nat → Val) (ign : Bool) (w : Window) (p : List Nat) :
+    lastValueFixed cells ign w p = perRow (lastValueSpec cells ign w) [] p := by
+  unfold lastValueFixed
+  rw [frames_spec (fun _ rows => scanNth cells ign 1 rows.reverse .null 0) w p]
+  apply perRow_congr
+  intro a x b _
+  rw [scanNth_first, keptCells_reverse, List.head?_reverse]
+  rfl
+
+theorem nth_value_fixed_spec (cells : Nat → Val) (ign : Bool) (n : Int) (hn : 1 ≤ n) (w : Window) (p : List Nat) :
+    nthValueFixed cells ign n w p = some (perRow (nthValueSpec cells ign n.toNat w) [] p) := by
+  have hn' : ¬ n < 1 := by omega
+  simp only [nthValueFixed, hn', if_false]
+  rw [frames_spec (fun _ rows => scanNthFixed cells ign n.toNat rows 0) w p]
+  congr 1
+  apply perRow_congr
+  intro a x b _
+  have := scanNthFixed_spec cells ign n.toNat (frameRows w a x b) 0 (by omega)
+  simpa [nthValueSpec] using this
+
+/-- the driver's selector is the current code exactly as long as the flags say so -/
+theorem repo_state_is_current_code (cells : Nat → Val) (ign : Bool) (n : Int) (w : Window) (p : List Nat) :
+    lastValueAt repoState cells ign w p = lastValue cells ign w p ∧
+    nthValueAt repoState cells ign n w p = nthValue cells ign n w p := ⟨rfl, rfl⟩
+
 /-! ## LAG / LEAD -/
 
 /-- LAG(expr, offset, default) [IGNORE NULLS]: the cell `offset` rows back — further back past NULL
@@ -442,6 +469,13 @@ theorem agg_over_partial {β : Type} (cells : Nat → Val) (agg : Nat → List V
     aggOver cells agg w p = some (perRow (aggSpec cells agg w) [] p) := by
   unfold aggOver
   rw [aggFrames_some cells agg p _ (frames_not_inverted w p hw)]
+  congr 1
+  exact frames_spec (fun idx rows => agg idx (rows.map cells)) w p
+
+/-- the repaired aggregate branch meets the full statement -/
+theorem agg_over_fixed_spec {β : Type} (cells : Nat → Val) (agg : Nat → List Val → β) (w : Window) (p : List Nat) :
+    aggOverFixed cells agg w p = some (perRow (aggSpec cells agg w) [] p) := by
+  unfold aggOverFixed
   congr 1
   exact frames_spec (fun idx rows => agg idx (rows.map cells)) w p
 
